@@ -29,8 +29,8 @@ import (
 	"testing/synctest"
 	"time"
 
-	"github.com/DataDog/datadog-traceroute/reversedns"
 	"github.com/DataDog/datadog-traceroute/packets"
+	"github.com/DataDog/datadog-traceroute/reversedns"
 	"github.com/DataDog/datadog-traceroute/traceroute"
 
 	"verifharness/hx"
@@ -328,6 +328,12 @@ func c08WireCases(t *testing.T, rep *hx.Report, orc *hx.Oracle, rng *hx.RNG, per
 
 var errC08Watchdog = errors.New("verif: SACK run killed by the harness watchdog")
 
+// what the last c08RunSack observed at the seam (read by the sites stream of C12)
+var c08LastSack struct {
+	Filters          []packets.PacketFilterSpec
+	Port, ClientPort uint16
+}
+
 type c08SackCase struct {
 	Name    string
 	Listen  bool
@@ -380,6 +386,7 @@ func c08RunSack(t *testing.T, c c08SackCase) (elapsed time.Duration, err error, 
 				once.Do(func() {
 					if cn, ok := accept(2 * time.Second); ok {
 						clientPort = uint16(cn.RemoteAddr().(*net.TCPAddr).Port)
+						c08LastSack.ClientPort = clientPort
 					}
 					if c.Flood {
 						fwg.Add(1)
@@ -446,6 +453,14 @@ func c08RunSack(t *testing.T, c c08SackCase) (elapsed time.Duration, err error, 
 		_, err = traceroute.VerifRunOnce(context.Background(), params, int(port))
 		wd.Stop()
 		elapsed = time.Since(start)
+		w.mu.Lock()
+		c08LastSack.Filters, c08LastSack.Port = nil, port
+		if len(w.Sources) > 0 {
+			w.Sources[0].mu.Lock()
+			c08LastSack.Filters = append(c08LastSack.Filters, w.Sources[0].Filters...)
+			w.Sources[0].mu.Unlock()
+		}
+		w.mu.Unlock()
 		close(stop)
 		fwg.Wait()
 	})
